@@ -44,6 +44,9 @@ std::vector<void*> g_refs;		 // NiRef objects seen in Sync
 std::vector<void*> g_srefs;		 // NiStringRef objects seen in Sync
 long g_maxCount = 3;
 bool g_monotoneBytes = false, g_sawZeroByte = false;
+std::string g_b0;				 // the bytes the generative read delivered, in stream order
+bool g_b0ok = true;
+bool g_hi16 = false;			 // 16-bit flag words with a high bit (only for NiGeometryData-derived blocks)
 bool g_descShaped = true;		 // 64-bit integers get vertex-descriptor-shaped values (block-level runs only)
 
 void onTransfer(int mode, char* ptr, std::streamsize count) {
@@ -58,6 +61,12 @@ void onTransfer(int mode, char* ptr, std::streamsize count) {
 		else
 			for (std::streamsize i = 0; i < count; ++i)
 				ptr[i] = static_cast<char>('0' + g_gen.below(10));
+	}
+	if (g_generate && mode == 0) {
+		if (ptr)
+			g_b0.append(ptr, static_cast<size_t>(count));
+		else
+			g_b0ok = false;	// a C string read: its bytes are not handed to the hook
 	}
 }
 
@@ -94,6 +103,8 @@ void onTyped(int mode, void* ptr, size_t size, int kind) {
 		}
 		else if (r < 11)
 			v = g_gen.below(static_cast<uint32_t>(g_maxCount) + 1);
+		else if (r == 12 && size == 2 && g_descShaped && g_hi16)
+			v = 0x1000 | g_gen.below(4);		// 16-bit flag words with a high bit (NiGeometryData::dataFlags' tangent bit)
 		else if (r < 13)
 			v = 4 + g_gen.below(12);
 		else if (r == 13)
@@ -141,6 +152,11 @@ void onTyped(int mode, void* ptr, size_t size, int kind) {
 				p[i] = (i % 2 == 0) ? static_cast<unsigned char>(g_gen.below(4)) : 0;
 		}
 	}
+	// the typed value replaces what the raw transfer just delivered
+	if (g_b0.size() >= size)
+		std::memcpy(&g_b0[g_b0.size() - size], p, size);
+	else
+		g_b0ok = false;
 }
 
 void onRef(int, void* r) {
@@ -232,9 +248,15 @@ std::string do_blk(const Case& c) {
 	g_nextIsRef = false;
 	g_monotoneBytes = c.get("type") == "BSGeometry";
 	g_sawZeroByte = false;
+	g_b0.clear();
+	g_b0ok = true;
+	g_hi16 = dynamic_cast<NiGeometryData*>(obj.get()) != nullptr;
 	g_generate = true;
 	obj->Get(gin);
 	g_generate = false;
+	g_hi16 = false;
+	std::string b0 = g_b0;
+	bool b0ok = g_b0ok;
 	std::vector<long> gtrace = g_trace;
 
 	// 2. first put
@@ -306,6 +328,9 @@ std::string do_blk(const Case& c) {
 		os << " b2=" << hex(p2.bytes);
 	if (p1b.bytes != p1.bytes)
 		os << " b1b=" << hex(p1b.bytes);
+	// the byte stream the instance was generated from (what a file holding this object would contain)
+	if (b0ok && b0.size() <= 200000)
+		os << " b0=" << hex(b0);
 	// facts the known-finding matchers need (public members only)
 	if (auto bs = dynamic_cast<BSTriShape*>(obj.get()))
 		os << " bs_skinned=" << bs->IsSkinned() << " bs_pds=" << bs->particleDataSize << " bs_nv=" << bs->GetNumVertices()
@@ -500,6 +525,35 @@ std::string do_save3(const Case& c) {
 		so.sortBlocks = false;
 	}
 	std::ostringstream os;
+	// edit=k: an edited model - the k-th non-empty child reference of the file (in block order) is emptied,
+	// which leaves a whole sub-tree unreferenced (orphan chains for the pruning of a default save)
+	if (!c.get("edit").empty()) {
+		std::vector<NiRef*> all;
+		NiHeader& hdr = nif.GetHeader();
+		for (uint32_t i = 0; i < hdr.GetNumBlocks(); ++i) {
+			auto b = hdr.GetBlock<NiObject>(i);
+			if (!b)
+				continue;
+			std::set<NiRef*> refs;
+			b->GetChildRefs(refs);
+			std::vector<NiRef*> sorted(refs.begin(), refs.end());
+			std::sort(sorted.begin(), sorted.end(), [](NiRef* a, NiRef* b2) { return a->index < b2->index; });
+			// a shape's geometry data reference is not edited: NiGeometry caches a raw pointer to the data
+			// block that only SetDataRef / SetGeomData keep in step (emptying the reference behind its
+			// back is API misuse; the dangling cache itself is C11's recorded finding)
+			NiRef* dataRef = nullptr;
+			if (auto shape = dynamic_cast<NiShape*>(b))
+				dataRef = shape->DataRef();
+			for (auto r : sorted)
+				if (!r->IsEmpty() && r != dataRef)
+					all.push_back(r);
+		}
+		if (all.empty())
+			return "NOREFS";
+		NiRef* victim = all[static_cast<size_t>(c.geti("edit")) % all.size()];
+		os << "cleared=" << victim->index << " ";
+		victim->Clear();
+	}
 	std::string d0 = model_digest(nif);
 	std::string outs[3], digs[3];
 	for (int r = 0; r < 3; ++r) {
